@@ -206,16 +206,20 @@ func expandContent(kind int, seed uint64, n, sliceSize int) []byte {
 // World is a PAR2 or PAR1 file set on a simulated (or real) disk plus
 // the reference knowledge about it.
 type World struct {
-	Par1  bool
-	Disk  *simdisk.Mem
-	Dir   string // absolute archive directory
-	Base  string // base name of the index file (without extension)
-	Index string // absolute path of the index file
-	Files []ref.Protected
-	S     int // slice size (PAR2)
-	R     int // recovery blocks / parity volumes
-	G     int // goroutines
-	N     int // protected slices (PAR2)
+	// OlderGen: for worlds in which an older generation of the same set
+	// (same names, other content) was protected before: path -> those
+	// bytes. A Repair that restores them wrote exact originals too.
+	OlderGen map[string][]byte
+	Par1     bool
+	Disk     *simdisk.Mem
+	Dir      string // absolute archive directory
+	Base     string // base name of the index file (without extension)
+	Index    string // absolute path of the index file
+	Files    []ref.Protected
+	S        int // slice size (PAR2)
+	R        int // recovery blocks / parity volumes
+	G        int // goroutines
+	N        int // protected slices (PAR2)
 	// UseDefaults: pass zero option values so that Create uses its
 	// documented defaults (which S, R then hold).
 	UseDefaults bool
